@@ -1,9 +1,18 @@
-//! rqnostd: the C07 digest workload against raptorq built with default-features = false (no_std library build)
+//! rqnostd: workloads against raptorq built with default-features = false (no_std library build):
+//!   rqnostd --items ... --special ...      C07 digest workload
+//!   rqnostd --kernel-grid <max_len>        C11 kernel grid through the public dispatchers (real portable path)
 #[path = "../../harness/src/digest.rs"]
 mod digest;
+#[path = "../../harness/src/nostd_grid.rs"]
+mod nostd_grid;
 
 fn main() {
     let args: Vec<String> = std::env::args().skip(1).collect();
     let tag = if cfg!(debug_assertions) { "checked/no_std" } else { "release/no_std" };
+    if args.first().map(|s| s.as_str()) == Some("--kernel-grid") {
+        let max_len: usize = args.get(1).and_then(|s| s.parse().ok()).unwrap_or(320);
+        nostd_grid::main_grid(tag, max_len);
+        return;
+    }
     digest::child_main(tag, &args);
 }
